@@ -8,6 +8,11 @@ pub mod util;
 /// re-exports used by the instantiation crates
 pub mod re {
     pub use aes;
+    pub use cbc;
+    pub use cfb8;
+    pub use ige;
+    pub use ofb;
+    pub use pcbc;
     pub use cfb_mode;
     pub use ctr;
     pub use cts;
